@@ -3,7 +3,8 @@
 //! Request lines
 //!   sk a|b <scaled> <num> <ksize> <dna|protein|dayhoff|hp> <seed> <track 0|1> <mins> <abunds>
 //!        builds the sketch in BOTH containers; answer = what the real objects hold
-//!   isz|isect|jac|jacv|ang|angin|angone|angzero  V|T ab|ba
+//!   isz|isect|jac|jacx|jacv|ang|angin|angone|angzero  V|T ab|ba
+//!        (jacx = jac, answered on the Lean side by the exact integer model of binary64 division)
 //!   cc V|T ab|ba <downsample>
 //!   sim V|T ab|ba <ignore_abundance> <downsample>
 //!   cmp|cmpv sig|store|large sim|cont ab|ba        (Comparable impls of Signature / SigStore)
@@ -349,6 +350,7 @@ fn gen(a: &Args) {
                 }
                 o.op(&format!("cc {} {} 0", c, ord));
                 o.op(&format!("jac {} {}", c, ord));
+                o.op(&format!("jacx {} {}", c, ord));
                 o.op(&format!("jacv {} {}", c, ord));
                 o.op(&format!("ang {} {}", c, ord));
                 o.op(&format!("angin {} {}", c, ord));
@@ -554,7 +556,7 @@ fn step(st: &mut St, ws: &[&str]) -> String {
                 Err(e) => format!("err {:?}", e),
             }
         }
-        "jac" => rf(if tree { x.t.jaccard(&y.t) } else { x.v.jaccard(&y.v) }),
+        "jac" | "jacx" => rf(if tree { x.t.jaccard(&y.t) } else { x.v.jaccard(&y.v) }),
         "jacv" => match if tree { x.t.jaccard(&y.t) } else { x.v.jaccard(&y.v) } {
             Ok(v) => verdict(v),
             Err(e) => format!("err {:?}", e),
